@@ -14,10 +14,10 @@ CLAIMED = {
             'zero annihilation through both operand representations by abstract interpretation of Semiring.mul; edgeless externals removed and restored node-by-node (filter and restore comprehension pair each node with its own size)',
             'abstract counting + guard truth tables + abstract interpretation over float classes'),
     'C02': ('budget-must-warn on every kmax-bounded loop (path rule with counter facts); `linear` raises for >=2 in-component edges '
-            '(guards evaluated on abstract counts); per-SCC method rewrites are constant and guarded; dispatch exhaustive with raising fall-through; star(one) by abstract interpretation; component-local state of the per-SCC loops',
+            '(guards evaluated on abstract counts); per-SCC method rewrites are constant and guarded; dispatch exhaustive with raising fall-through; star(one) by abstract interpretation; component-local state of the per-SCC loops; contributions of several rules to one block are accumulated, and the iterate a sweep builds is read by no product of the same sweep',
             'CFG path rule with interval facts; guard evaluation on abstract values; dispatch-table agreement'),
     'C04': ('totality of partial sequence operations in viterbi\'s call graph under emptiness guards; assignment key sources cover rule.rhs.nodes(); '
-            'producer/consumer enumeration order of back-pointers agrees; pointer width agreement; rule index recorded whenever the running maximum is rebound; component-local state of the per-SCC loop; no negative size literal to PatternedTensor.expand',
+            'producer/consumer enumeration order of back-pointers agrees; pointer width agreement; rule index recorded whenever the running maximum is rebound; component-local state of the per-SCC loop; no negative size literal to PatternedTensor.expand; F_viterbi hands the iterate under construction to no product of the same sweep',
             'partial-on-empty dataflow; key-source coverage; iteration-source agreement'),
     'C05': ('method parameter forwarded along factorize_fgg -> factorize_hrg -> factorize_rule -> tree_decomposition; fresh-name protocol '
             '(complete registry seeds, add-before-reuse); carry-over of factors/domains/start/edges; edge-placement guard truth table; caller-supplied avoid set honoured and seeded with the rule\'s own lhs; primal-graph vertices and cliques; child recursion iff not the parent bag',
@@ -34,7 +34,7 @@ CLAIMED = {
     'C09': ('solver entry points have no write effect on their arguments (ownership/effect analysis); thunks return fresh tensors; LU result accepted only under both acceptance tests, '
             'consumed buffers never reused on the fallback path; every `.T` in multi_solve/multi_mv applied to a value of rank two (rank inference with reaching definitions)',
             'storage-ownership effect analysis + typestate on the CFG'),
-    'C10': ('every connected component contributes to acb\'s result and the loop never returns early; dispatch table agreement with README/bin; bound helpers copy before eliminating; the reported width is updated before every vertex enters the returned order',
+    'C10': ('every connected component contributes to acb\'s result and the loop never returns early; dispatch table agreement with README/bin; bound helpers copy before eliminating; the reported width is updated before every vertex enters the returned order; in tree_decomposition_from_order every new bag is linked to an existing one on all paths once other bags exist (one tree, not a forest)',
             'accumulate-all path rule; dispatch-table agreement'),
     'C11': ('assert / __debug__ purity (no effect, binds nothing read later); option plumbing from bin/sum_product.py and between forward/backward; multiplier at most once on the j_precompute path',
             'effect analysis of asserts; option-forwarding dataflow; abstract counting'),
